@@ -27,11 +27,12 @@ ASSUMPTIONS = [
     "request-scoped types of phases.json (pkg.writerToReaderAdapter) are private to one response; the translator checks that every allocation site is in request-phase code; sync.Once is outside the lockset vocabulary",
     "sync/atomic functions and types, sync.Map and other sync.* objects are atomic accesses; `atomic.StoreUint32(&s.counter, 0) // race is ok` in the adaptive sampler is an atomic write (a lost update of the counter, not a data race)",
     "races inside the standard library, chi and gRPC are out of scope; generated code is covered for the four fixed designs of harness/cmd/c20/designs.go (HTTP, no streaming)",
+    "goa_request_path_isolated is a DISCIPLINE check, not semantic noninterference: every request-phase write to a shared location (plain, atomic, sync.Map, sync.Pool.Put, mutator-named calls on objects of unresolved type) is classified in translate/c20/shared_writes.json as memo (then memo_isolation applies; F being a function of the key is read off the source, not proved), monotone helper state (responses may depend on it by design) or request-private (argued per entry, not proved); leaks through objects the translator deems request-private (parameters, locals, interfaces) are only looked for dynamically",
     "the stress and echo runs are supporting evidence and the failing-schedule search; a clean run of them proves nothing",
 ]
 
 TRUSTED = [
-    "translate/c20 (go/ast footprint extraction, path enumeration, naming of locations and mutexes) and its committed table phases.json",
+    "translate/c20 (go/ast footprint extraction, path enumeration, naming of locations and mutexes) and its committed tables phases.json and shared_writes.json",
     "harness/cmd/c20 (designs written through the real DSL, stress and echo oracles)",
     "Go race detector (only to exhibit a failing schedule)",
 ]
@@ -83,7 +84,7 @@ def run_gen_echo(ck, tier, race, res_out):
     rc, out = sh(cmd, cwd=gen, env=goenv(), timeout=1200)
     if rc != 0:
         return {"built": False, "error": out[-3000:]}
-    n, per = (64, 300) if tier == "thorough" else (16, 250)
+    n, per = {"thorough": (64, 300), "search": (32, 200)}.get(tier, (16, 250))
     env = goenv()
     env["GORACE"] = "exitcode=0 halt_on_error=0"
     errf = open(os.path.join(ck.work, "echo_driver.stderr"), "w")
@@ -178,7 +179,7 @@ def run(tier, replay=None):
     fpv = os.path.join(ck.coqdir, "Generated_footprint.v")
     fpj = os.path.join(ck.work, "footprint.json")
     tmpv = os.path.join(ck.work, "Generated_footprint.v")
-    targs = [tbin, "-repo", REPO, "-phases", os.path.join(tdir, "phases.json"), "-out", tmpv, "-json", fpj]
+    targs = [tbin, "-repo", REPO, "-phases", os.path.join(tdir, "phases.json"), "-writes", os.path.join(tdir, "shared_writes.json"), "-out", tmpv, "-json", fpj]
     if gen_ok:
         targs += ["-gen", os.path.join(ck.work, "gen")]
     trc, tout = sh(targs, timeout=600)
@@ -237,34 +238,36 @@ def run(tier, replay=None):
     if not ck.coq_ok:
         culprits = []
         if fp:
-            culprits = [{"location": v["location"], "unprotected_accesses": v["unprotected_accesses"][:6]} for v in fp["violations"]]
+            culprits = [{"location": v["location"], "theorem": "goa_request_path_race_free", "unprotected_accesses": v["unprotected_accesses"][:6]} for v in fp["violations"]]
+            culprits += [{"location": v["location"], "theorem": "goa_request_path_isolated", "why": v["why"], "writes": v["writes"][:6]} for v in fp.get("isolation_violations", [])]
         if not ck.violations:
             searched = {"race_build": True, "helpers": [], "generated_echo": False}
             if rbin is None:
                 rbin = ck.go_build("c20", race=True)
-            for h in ["ErrorEncoder", "ResponseEncoder", "RequestDecoder", "MuxerVars", "ValidatePattern", "Samplers", "StreamCanceler", "SkipResponseWriter", "MergeErrors"]:
-                rc, out = run_harness(ck, rbin, ["-mode", "stress", "-helper", h, "-seed", str(ck.seed), "-tier", "thorough"])
+            for h in ["ErrorEncoder", "ResponseEncoder", "RequestDecoder", "ResponseDecoder", "TextCodec", "MuxerVars", "ValidatePattern", "Samplers", "StreamCanceler", "SkipResponseWriter", "MergeErrors"]:
+                rc, out = run_harness(ck, rbin, ["-mode", "stress", "-helper", h, "-seed", str(ck.seed), "-tier", "search"])
                 searched["helpers"].append(h)
-                found = record_races(ck, out, "N goroutines released together call " + h, {"input": {"helper": h, "goroutines": 64, "rounds": 40}, "helper": h, "footprint_violations": culprits})
+                found = record_races(ck, out, "N goroutines released together call " + h, {"input": {"helper": h, "goroutines": 32, "rounds": 10}, "helper": h, "footprint_violations": culprits})
                 m = re.search(r"@@STRESS (.*)", out)
                 if m:
                     for f in json.loads(m.group(1)).get("failures") or []:
                         ck.failure(f["signature"], f["what"], {"input": f["input"], "helper": h})
                 elif not found and rc != 0:
                     ck.failure("helper-crashed/" + h, "the stress of %s died" % h, {"input": {"helper": h, "output": out[-3000:]}})
-            rc, out = run_harness(ck, rbin, ["-mode", "run", "-seed", str(ck.seed + 1), "-tier", "thorough", "-out", ck.work])
-            record_races(ck, out, "the hand-assembled server was driven by 64 clients", {"input": {"harness": "c20 -mode run -tier thorough"}, "footprint_violations": culprits})
+            rc, out = run_harness(ck, rbin, ["-mode", "run", "-helper", "echo-hand", "-seed", str(ck.seed + 1), "-tier", "search", "-out", ck.work])
+            record_races(ck, out, "the hand-assembled server was driven by 32 client goroutines", {"input": {"harness": "c20 -mode run -helper echo-hand -tier search"}, "footprint_violations": culprits})
             if rc == 0:
                 for f in json.load(open(os.path.join(ck.work, "result.json")))["failures"]:
                     ck.failure(f["signature"], f["what"], {"input": f["input"]})
             if gen_ok:
                 searched["generated_echo"] = True
-                gi = run_gen_echo(ck, "thorough", True, res_out)
+                gi = run_gen_echo(ck, "search", True, res_out)
                 use_gen_echo(ck, gi, "search, -race")
         if not ck.violations:
-            ck.unproved("theorem goa_request_path_race_free (coq/Conc/Instance.v) no longer checks for the footprint extracted from this tree: " +
-                        (("unprotected shared location(s) " + ", ".join(c["location"] for c in culprits)) if culprits else ck.coq_error)[:300],
-                        {"broken": "coq/Conc build (Instance.v: apply checked_pool_race_free; vm_compute; reflexivity)", "detail": ck.coq_error,
+            thms = sorted({c["theorem"] for c in culprits}) or ["(see detail)"]
+            ck.unproved("theorem %s (coq/Conc/Instance.v) no longer checks for the footprint extracted from this tree: " % " and ".join(thms) +
+                        (("unprotected / unclassified shared location(s) " + ", ".join(c["location"] for c in culprits)) if culprits else ck.coq_error)[:300],
+                        {"broken": "coq/Conc build (Instance.v: boolean discipline / isolation check by vm_compute on Generated_footprint.v)", "detail": ck.coq_error,
                          "footprint_violations": culprits, "unbalanced_paths": (fp or {}).get("unbalanced_paths"), "searched": searched})
 
     # ---- evidence
@@ -294,6 +297,8 @@ def run(tier, replay=None):
                         sorted({v["location"] for v in (fp or {}).get("violations_if_setup_ran_concurrently", [])}),
                         "setup_table": sorted((fp or {}).get("setup_table_used", {}).keys())},
         "request_scoped_types": (fp or {}).get("request_scoped_types"),
+        "shared_writes_classified": (fp or {}).get("shared_writes_classified"),
+        "shared_writes_stale_entries": (fp or {}).get("shared_writes_stale_entries"),
         "race_detector": "on (thorough tier / replay of a race report)" if want_race else ("on (search after broken proof)" if searched else "off (quick tier)"),
         "generated_echo": None if not gen_info else {k: gen_info.get(k) for k in ("built", "race", "rc")},
         "checker_cmd": "go run translate/c20 -> coq/Conc/Generated_footprint.v; coq_makefile -f coq/Conc/_CoqProject && make (coqc 8.16.1, full .vo) + Print Assumptions per theorem of Properties.v and Instance.v",
